@@ -30,9 +30,15 @@ CLAIMS = {
              "overflow error and InvalidCountryCode (errors of individual attempts never escape the retry loop); the "
              "result is a function of arguments and choice record only (no hash seed, no history). Tie: the real "
              "call is run with a recording generator and the model is evaluated on the recorded choices for every "
-             "country x seeds x modes x pinned subsets. Not provable here: determinism of random.Random / rstr and that "
-             "xeger honours the pattern; pinned read-back, listed-bank membership and cross-process / hash-seed "
-             "reproducibility are dynamic checks.",
+             "country x seeds x modes x pinned subsets. Also proved (C13Pinned), for every registry, mode and choice "
+             "record: `random_placement` / `pinned_readback` - if the pinned values are compact texts no longer than "
+             "their fields, every pinned component (a pinned branch code being non-empty) sits zero-padded at its "
+             "published position of the returned IBAN; `listed_bank` / `listed_bank_found` - if the draw used a "
+             "registry bank whose bank code has the width of the bank-identifying field (bank code, or bank + branch "
+             "code) and bank/branch are not pinned, the key read off the returned IBAN is that bank code and the "
+             "IBAN's bank lookup finds a listed entry with it. Not provable here: determinism of random.Random / "
+             "rstr and that xeger honours the pattern; cross-process / hash-seed reproducibility is a dynamic "
+             "check.",
         design="7 (C13)",
         technique="Lean 4 proof over an explicit choice-record model + recorded-choice differential "
                   "correspondence + cross-process reproducibility runs"),
@@ -131,9 +137,13 @@ CLAIMS = {
              "fields published; every bank entry (29,451 on the pinned tree, in chunks over 16 modules): country in "
              "the table, BIC null/empty or ISO 9362-valid with a pycountry country code, bank code empty or fitting "
              "the bank-identifying field in length and character classes; plus generic lemmas giving these checks "
-             "their meaning (incl. RegistryBicsOk of C12). PARTIAL: 'every listed bank can occur in a valid IBAN "
-             "and is found again' is checked dynamically for every distinct key (thorough) / a sample (quick), not "
-             "proved generically.",
+             "their meaning (incl. RegistryBicsOk of C12). The consequence (C17Reach): `reachable` - for a well-formed "
+             "country every key that fits the classes of the bank-identifying field occurs in a structure-conforming "
+             "BBAN from which it is read back (constructed by overlaying the key's pieces on a class-wise filler); "
+             "`bank_reachable` - hence for every registry entry with such a bank code there is a valid IBAN whose "
+             "`bank` lookup returns the first entry listed for that (country, bank code); `live_rows_reachable` - "
+             "the hypothesis holds for every row of the regenerated bank table. The dynamic part still builds and "
+             "reads back an IBAN for every distinct key (thorough) / a sample (quick) on the real code.",
         design="7 (C17)",
         technique="decide +kernel instance obligations over the complete regenerated tables (bit-mask encoded "
                   "sets, chunked) + Lean lemmas interpreting them + exhaustive dynamic audit/reachability"),
@@ -173,7 +183,11 @@ CLAIMS = {
              "their case splits), and live_de_total: no live method ever raises a foreign exception on a "
              "ten-digit account. Dispatch theorem (first registry entry names the method; unlisted bank / unimplemented "
              "method accepted), instance facts (39 registered methods, account field = bban[8:18], no DE:default) "
-             "kernel-checked on regenerated data. Constants inside hook bodies (which the class parameters do not show) "
+             "kernel-checked on regenerated data. At the IBAN level (`german_iban_level`, `live_german_iban`, worked "
+             "out for method 00 in `live_german_iban_00`): a German text valid without national validation whose "
+             "bank's first registry entry names a registered method is accepted with national validation exactly "
+             "when the engine with that method's parameters accepts the ten account digits at positions 12..21. "
+             "Constants inside hook bodies (which the class parameters do not show) "
              "are tied by `live_probes_reproduced`: ~10,500 recorded compute/validate calls per run (unit vectors, "
              "every check digit of seeded random numbers, numbers around every integer literal of germany.py) "
              "replayed by the kernel - correspondence, not a theorem. All methods are additionally compared with an independent Python "
@@ -200,7 +214,11 @@ CLAIMS = {
              "the hand-written algorithm models are tied to the live objects by `live_probes_reproduced`: ~6,300 "
              "recorded compute/validate calls (unit vectors over every position x character, seeded random, "
              "ill-formed) replayed by the kernel on every run - correspondence, not a theorem about all inputs. "
-             "tools/natref.py is a second independent reading of the rules used by the failing-input search.",
+             "tools/natref.py is a second independent reading of the rules used by the failing-input search. At the "
+             "IBAN level (`new_national_eq`, `iban_accept_iff`, `live_<country>_iban`): IBAN(text, validate_bban=True) "
+             "succeeds exactly when the text is valid without national validation and its BBAN satisfies the "
+             "country's rule; `national_error_sound`: an error raised with national validation is the error "
+             "without it or names a rule that really fails.",
         design="7 (C06)",
         technique="Lean 4 proof (dispatch, field tiling, numerify / weighted-sum / Luhn / RIB / CIN value lemmas by "
                   "induction) + decide +kernel instance obligations on regenerated registration/position data and "
